@@ -96,7 +96,7 @@ struct Tally {
 fn ostats_map(o: &OStats) -> BTreeMap<String, u64> {
     let mut m = BTreeMap::new();
     macro_rules! put { ($($f:ident),*) => { $( m.insert(stringify!($f).to_string(), o.$f); )* } }
-    put!(windows, queries_judged, queries_skipped_inexact, replies_judged, replies_expected_and_seen,
+    put!(windows, queries_judged, queries_skipped_inexact, queries_skipped_pipeline, replies_judged, replies_expected_and_seen,
         silent_expected_and_seen, store_mutated_between_recv_and_lock, writer_waited_for_reader,
         replies_parse_checked, other_sends_parse_checked, ingests, ingests_fuzzy, ingested_records,
         ingest_filtered_own, ingest_filtered_foreign, known_exact, known_exact_nonempty, known_safety_only,
